@@ -45,6 +45,7 @@ def notations(d):
         ("d. Monat yyyy", "{}. {} {}".format(d.day, de, d.year)),
         ("d Month yyyy", "{} {} {}".format(d.day, en, d.year)),
         ("Month dth yyyy", "{} {} {}".format(en, _ord(d.day), d.year)),
+        ("Month d, yyyy", "{} {}, {}".format(en, d.day, d.year)),
         ("dth of Month yyyy", "{} of {} {}".format(_ord(d.day), en, d.year)),
     ]
     if d.year >= 2000:
@@ -53,7 +54,7 @@ def notations(d):
     return out
 
 
-NAMED = ("d. Monat yyyy", "d Month yyyy", "Month dth yyyy", "dth of Month yyyy")
+NAMED = ("d. Monat yyyy", "d Month yyyy", "Month dth yyyy", "Month d, yyyy", "dth of Month yyyy")
 
 
 def _dates(tier):
@@ -87,6 +88,8 @@ def plan(tier, seed):
                     for ts in ts_list[:2]:
                         yield ("dt", key, text + " " + ctext, (d.year, d.month, d.day), (h, mi), ts)
                         yield ("td", key, ctext + " " + text, (d.year, d.month, d.day), (h, mi), ts)
+                    # date, comma, clock ('05.03.2019, 14:30')
+                    yield ("dt", key, text + ", " + ctext, (d.year, d.month, d.day), (h, mi), ts_list[0])
         # the valid notation straight after a look-alike in which ONE blank is an unmatched character ('05.03.2019@09:30', '23 April_2018'):
         # what an earlier text looked like between its tokens must not decide how this one is read
         for d in bdates:
